@@ -1022,8 +1022,10 @@ def run_mujoco_unit(name, ctx):
     ctx.require("formula_rev_observation_compared", 10)
     ctx.require("first_step_true_kinematics_compared", 3)
     ctx.require("reset_support_samples", 64)
-    if env_name in ("Reacher", "Swimmer", "InvertedPendulum", "InvertedDoublePendulum", "Ant", "Humanoid") or (
-            env_name in _ROOT_Z):
+    # Pusher (object on the table) and HumanoidStandup (lying: limbs within the clearance of each other and of
+    # the floor) are practically never contact-free; their one-step dynamics are only compared informationally
+    if env_name in ("Reacher", "Swimmer", "InvertedPendulum", "InvertedDoublePendulum", "Ant", "Humanoid",
+                    "HalfCheetah", "Hopper", "Walker2d"):
         ctx.require("data_fidelity_contact_free_steps", 3)
     if env_name in ("Ant", "Humanoid", "HumanoidStandup") and not ctx.quick:
         ctx.require("contact_steps_structural", 3)
